@@ -413,6 +413,14 @@ func c17Contexts() []c17Ctx {
 			m := ph(a, ClsUserName, "mart", "names")
 			return "mart " + m.Placeholder() + " {\n" + ph(a, ClsIdent, "item", "").Placeholder() + "\nITEM_B\n}", func() interp.Value { return m.Val }
 		}},
+		{"mapscripts-inline-script", func(a *AtomTable) (string, func() interp.Value) {
+			// the inline script (with control flow) of a mapscripts statement:
+			// its block is found through the label <map>_<type>
+			m := ph(a, ClsUserName, "map", "names")
+			ty := ph(a, ClsIdent, "mstype", "")
+			c := func() string { return ph(a, ClsPlainCmd, "cmd", "").Placeholder() }
+			return "mapscripts " + m.Placeholder() + " {\n" + ty.Placeholder() + " {\n" + c() + "\nif (flag(" + ph(a, ClsIdent, "flag", "").Placeholder() + ")) {\n" + c() + "\n}\n" + c() + "\n" + c() + "\n}\n}", func() interp.Value { return cat(m.Val, "_", ty.Val) }
+		}},
 		{"mapscripts", func(a *AtomTable) (string, func() interp.Value) {
 			m := ph(a, ClsUserName, "map", "names")
 			return "mapscripts " + m.Placeholder() + " {\n" + ph(a, ClsIdent, "mstype", "").Placeholder() + ": " + ph(a, ClsIdent, "target", "").Placeholder() + "\n}", func() interp.Value { return m.Val }
